@@ -221,13 +221,17 @@ def to_trace_run(run, defn):
     if run["raised"]:
         stage = "gridding" if (run["rec"] is not None and run["rec"]["raw"] is not None) else "jump"
         return None, {"what": "solve_stochast raised / did not return", "detail": run["raised"], "stage": stage}, None
-    if run.get("slow"):
-        return None, None, "too slow to judge (not stuck)"
     rec = run["rec"]
-    if rec is not None and len(rec["attempts"]) > 600:
-        return None, None, "more than 600 attempts (too long for trace validation)"
     if rec is None or run["nruns"] != 1:
         return None, None, "recorder saw %d _jump calls" % run["nruns"]
+    # a run that is too long (or too slow) for whole-trace validation is still judged on a PREFIX of its attempts:
+    # every step of the prefix must be a step of the specification (what was returned at the end is not examined)
+    truncated = bool(run.get("slow")) or len(rec["attempts"]) > 600
+    if truncated:
+        rec = dict(rec)
+        rec["attempts"] = rec["attempts"][:400]
+        if not rec["attempts"]:
+            return None, None, "too slow to judge and nothing recorded"
     times = {rec["t0"], rec["finalT"]}
     if run["grid"]:
         times |= set(run["grid"])
@@ -276,10 +280,16 @@ def to_trace_run(run, defn):
             if "dtr" not in e:
                 e["dtr"] = 0
         evs.append(e)
-    evs.append({"ev": "End"})
-    out = run["out"]
     tl = sorted(times)
     rank = {v: i + 1 for i, v in enumerate(tl)}
+    if truncated:
+        for e in evs:
+            if "_t" in e:
+                e["tr"] = rank[e.pop("_t")]
+        return {"exact": rec["exact"], "x0": _ints(rec["x0"]), "t0r": rank[rec["t0"]], "horizonr": rank[rec["finalT"]],
+                "checkdraws": bool(checkdraws and rec["exact"]), "events": evs, "truncated": True}, None, None
+    evs.append({"ev": "End"})
+    out = run["out"]
     if run["grid"]:
         g = run["grid"]
         evtimes = [e["_t"] for e in evs if "_t" in e and e.get("ok")]
